@@ -110,8 +110,35 @@ func runC08(p *Plan, keep bool) *Outcome {
 		nops := 0
 		evictions, rejections := 0, 0
 		var hist []string
+		// one run in five is "free": the operations are not serialised with a
+		// model step, so that two puts / dels interleave inside the cache; what
+		// is checked then is what holds after any interleaving: at the end no two
+		// cached regions of a table intersect, the order is right, nothing cached
+		// is dead
+		free := g.R.Chance(0.2)
 		doOp := func(op c08Op) {
 			simrt.Yield("task:c08")
+			if free {
+				nops++
+				switch op.Kind {
+				case "put":
+					// a fresh object, as the client parses one from every meta row
+					ri := mk(op.Reg)
+					if _, rep := cache.Put(ri); rep {
+						evictions++
+					} else {
+						rejections++
+					}
+					infos[op.Reg] = ri // visible to del / ctx once the put has returned
+				case "del":
+					cache.Del(infos[op.Reg])
+				case "get":
+					cache.Get([]byte(op.Tbl), op.Key)
+				case "ctx":
+					_ = infos[op.Reg].Context()
+				}
+				return
+			}
 			if op.Kind == "ctx" {
 				// a user of the region (its establisher) asks for its context, not
 				// synchronised with whoever is changing the cache
@@ -272,8 +299,24 @@ func runC08(p *Plan, keep bool) *Outcome {
 			})
 		}
 		out.Reason = e.Loop(func() bool { return done == nt })
-		if done == nt {
+		if done == nt && !free {
 			finalCheck()
+		}
+		if done == nt && free {
+			snap := cache.Snapshot()
+			for i := range snap {
+				for j := i + 1; j < len(snap); j++ {
+					if snap[i].Table == snap[j].Table && rangesOverlap(snap[i].Start, snap[i].Stop, snap[j].Start, snap[j].Stop) {
+						add("overlap", "after %d unserialised operations of %d tasks: the cache holds overlapping regions %q and %q", nops, nt, snap[i].Name, snap[j].Name)
+					}
+				}
+				if i > 0 && cmpTuple(snap[i-1], snap[i]) >= 0 {
+					add("tree-order", "after %d unserialised operations: %q is ordered before %q", nops, snap[i-1].Name, snap[i].Name)
+				}
+				if snap[i].Dead {
+					add("dead-cached", "after %d unserialised operations: cached region %q is marked dead", nops, snap[i].Name)
+				}
+			}
 		}
 		out.Nontrivial = evictions+rejections > 0
 		out.Extra["operations"] = nops
